@@ -404,7 +404,7 @@ SKEL_REFS = (r"let mut cycle_owned_refs = HashMap::default\(\); let mut discover
              r"for \(&link, &strong\) in links\.iter\(\) \{ (?P<body>.*) \} \} "
              r"(?:debug_cycle\(&cycle_owned_refs\); )?cycle_owned_refs$")
 SKEL_ORPH = (r"let cycle = cycle_refs\(Link::forward\(this\.ptr\)\); if cycle\.is_empty\(\) \{ return None; \} "
-             r"let has_external_owners = cycle \.iter\(\) \.any\(\|\(item, &cycle_owned_refs\)\| (?P<pred>[^;]*)\); "
+             r"let has_external_owners = cycle\.iter\(\)\.any\(\|\(item, &cycle_owned_refs\)\| (?P<pred>[^;]*)\); "
              r"if has_external_owners \{ None \} else \{ Some\(cycle\) \}$")
 KINDS = {"Forward": "Fwd", "Backward": "Bwd", "Loopback": "Loop"}
 
@@ -427,7 +427,9 @@ def _norm(body):
     # instrumentation and debug-only statements are not part of the behaviour under translation
     body = re.sub(r"#\[cfg\(cactusref_verif\)\]\s*[^;]*;", "", body)
     body = re.sub(r"#\[cfg\(debug_assertions\)\]\s*", "", body)
-    return " ".join(body.split())
+    body = " ".join(body.split())
+    # method chains broken over lines by rustfmt: `x\n    .f()` and `x.f()` are the same text here
+    return re.sub(r"\s+\.(?=[A-Za-z_])", ".", body)
 
 
 def entry_stmts(txt):
@@ -459,7 +461,6 @@ def entry_stmts(txt):
             txt = rest
             continue
         for pat, term in ((r"continue;", "EContinue"),
-                          (r"cycle_owned_refs \.entry\(link\) \.and_modify\(\|count\| \*count \+= strong\) \.or_insert\(strong\);", "EAct EAdd"),
                           (r"cycle_owned_refs\.entry\(link\)\.and_modify\(\|count\| \*count \+= strong\)\.or_insert\(strong\);", "EAct EAdd"),
                           (r"discovered\.push\(link\);", "EAct EPush"),
                           (r"cycle_owned_refs\.entry\(link\.as_forward\(\)\)\.or_default\(\);", "EAct EDefault")):
